@@ -182,6 +182,15 @@ class Typer:
             if types <= {'int', 'bool'}:
                 return 'int'
             return '?'
+        if isinstance(expr, ast.Attribute) and isinstance(expr.value, ast.Name) and expr.value.id == 'self' and self.fv.clsname:
+            # a self attribute that is reset to None during operation (outside __init__) and is not known non-None here
+            kinds = self._self_attr_kinds(expr.attr)
+            if kinds:
+                if 'none' in kinds and not self.fv.has(at, 'self.{} is None'.format(expr.attr), False):
+                    rest = sorted(kinds - {'none'})
+                    return 'mixed:' + '|'.join(rest + ['none'])
+                if len(kinds - {'none'}) == 1:
+                    return next(iter(kinds - {'none'}))
         if isinstance(expr, ast.Attribute):
             name = dotted(expr) or ''
             last = expr.attr
@@ -191,6 +200,28 @@ class Typer:
                 return 's'
             return '?'
         return '?'
+
+    def _self_attr_kinds(self, attr):
+        ''' Abstract kinds of the values stored to self.<attr> outside __init__, over the class MRO. '''
+        from .lib import stores_to_self_attr
+        kinds = set()
+        for (_r, cnode) in self.tree.mro(self.fv.rel, self.fv.clsname):
+            for (func, stmt, kind, val) in stores_to_self_attr(cnode, attr):
+                if func.name == '__init__':
+                    continue
+                if kind == 'aug':
+                    kinds.add('int')
+                elif isinstance(val, ast.Constant):
+                    kinds.add('none' if val.value is None else ('int' if isinstance(val.value, int) else ('s' if isinstance(val.value, str) else '?')))
+                elif isinstance(val, ast.Call) and (dotted(val.func) or '') in ('str',):
+                    kinds.add('s')
+                elif isinstance(val, ast.Call) and (dotted(val.func) or '') in ('int', 'len', 'min', 'max'):
+                    kinds.add('int')
+                else:
+                    kinds.add('?')
+        if '?' in kinds:
+            return set()
+        return kinds
 
     def _is_peer_map(self, expr, at):
         ''' Is expr a mapping decoded from a peer datagram (parameter named extmap
